@@ -414,6 +414,11 @@ def inline_extracted_helpers(crate):
                 if hm.get(key):
                     fm.setdefault(key, [])
                     fm[key] = list(fm[key]) + list(hm[key])
+            # the caller no longer calls the helper: its compiled call sites go with it (the helper's own were just merged)
+            for b_ in list(crate.bodies.values()) + list(getattr(crate, "closures_mir", {}).values()):
+                m_ = b_.get("mir") or {}
+                if m_.get("calls"):
+                    m_["calls"] = [c_ for c_ in m_["calls"] if h not in (c_.get("callee"), c_.get("inst"))]
             del crate.bodies[h]
             done.append(h)
             progress = True
